@@ -19,7 +19,7 @@
 #                   todo_noflag (flagchan[c] never set: message not scheduled on its channel)
 #   not a VIOLATION but exit 2: a mutant that removes a callee named in an unwind key (e.g. str_rchr -> str_chr in senderadd) is
 #   reported as "unwind keys match no loop" by the driver.
-from vlib import Obl, Prog
+from vlib import load_plan, Obl, Prog
 
 
 def lemma_grid(tier):
@@ -193,4 +193,4 @@ def obligations(tier):
             claim="constmap_init+constmap == case-insensitive exact-match linear search over the entries "
                   "(flagcolon: key before the first ':', value pointer after it, entries without ':' ignored); a lookup leaves table and image unchanged",
             expect_witnesses=lemma_witnesses),
-    ]
+    ] + [load_plan("C16").signals_obligation(tier)]   # after a HUP newly listed domains apply: the main loop never forgets a HUP (flag cleared before the reading starts)
